@@ -69,17 +69,21 @@ ObsOut == IF cin' # cin THEN "send.ok"
           ELSE IF nSlowSpool' # nSlowSpool THEN "spool.drop"
           ELSE IF nDownNoSpool' # nDownNoSpool THEN "drop.noconn" ELSE "none"
 
+\* the connection named by the send.ok / send.drop hook is the relay's current connection
+SentTo(e) == e.out \in {"send.ok", "send.drop"} => e.oconn = conn
+
 TRelay == LET e == Ev(RelayG) IN
   /\ Can(RelayG) /\ Take(RelayG)
   /\ \/ /\ e.ev = "relay.top"
         /\ e.conn = conn /\ e.dead = (conn # 0 /\ ~alive[conn])
+        /\ e.sn = slowNow /\ e.sl = slowLast          \* dest.SlowNow / dest.SlowLastLoop, read at the loop head
         /\ RelayTop
      \/ /\ e.ev = "relay.in"
-        /\ e.conn = conn /\ e.id = next
+        /\ e.conn = conn /\ e.id = next /\ SentTo(e)
         /\ RelayIn /\ ObsOut = e.out
      \/ /\ e.ev = "relay.unspool"
         /\ e.conn = conn /\ e.id = slow /\ e.sn = slowNow /\ e.sl = slowLast
-        /\ RelayUnspool /\ ObsOut = e.out
+        /\ SentTo(e) /\ RelayUnspool /\ ObsOut = e.out
      \/ /\ e.ev = "relay.tick"
         /\ e.conn = conn /\ e.ncu = numCU
         /\ RelayTick /\ e.spawn = (ctor' # ctor)
